@@ -68,3 +68,37 @@ def run_gen(key, props, fn, both=False):
     if getattr(g, "failed", None):
         return {"unit": key, "unit_name": key, "props": list(props), "obligations": [], "undecided": g.failed, "info": {}, "note": ""}
     return g.result(both)
+
+
+def lean_lemma(key, props, path, theorem):
+    """check a Lean 4 (+ Mathlib) lemma file with the installed `lean`; one obligation, back end lean4.
+    The file must not contain sorry / admit / axiom (scanned); exit status 0 and no `error` / `sorry` in the output = discharged."""
+    import hashlib
+    import os
+    import re
+    import shutil
+    import subprocess
+    name = f"{key}:lemma:{theorem}@L1"
+    out = {"unit": key, "unit_name": key, "props": list(props), "obligations": [], "undecided": None, "note": f"Lean 4 lemma {os.path.basename(path)}",
+           "info": {"sha1": None, "lines": None, "assumptions": ["Lean 4 kernel + Mathlib"], "dropped": []}}
+    if not shutil.which("lean") or not os.path.exists(path):
+        out["undecided"] = "not-generated: lean or the lemma file is not available"
+        return out
+    src = open(path).read()
+    out["info"]["sha1"] = hashlib.sha1(src.encode()).hexdigest()
+    t0 = time.time()
+    rec = {"name": name, "kind": "lemma", "line": 1, "backend": "lean4"}
+    if re.search(r"\b(sorry|admit|axiom|native_decide)\b", src) or theorem not in src:
+        rec.update(status="undecided", reason="lemma file contains sorry/admit/axiom or does not state the theorem", time_s=0.0)
+    else:
+        try:
+            p = subprocess.run(["lean", path], capture_output=True, text=True, timeout=1500, cwd=os.path.dirname(path))
+            ok = p.returncode == 0 and "error" not in p.stdout and "sorry" not in p.stdout
+            rec.update(status="discharged" if ok else "undecided", time_s=round(time.time() - t0, 2))
+            if not ok:
+                rec["reason"] = ("lean: " + (p.stdout + p.stderr)[-400:])
+        except subprocess.TimeoutExpired:
+            rec.update(status="undecided", reason="lean timed out", time_s=round(time.time() - t0, 2))
+    out["obligations"].append(rec)
+    out["wall_s"] = round(time.time() - t0, 3)
+    return out
